@@ -17,7 +17,7 @@ func init() {
 
 const c14Explanation = "Static analysis of everything in the broker that a hostile or failing client can reach: (ASSERT) every unchecked type assertion in packet/topic/session/broker/transport is discharged by a checkable justification; (DIE) every error leaving a goroutine function passed through die() (or is tomb.ErrDying, or the handler closed the connection and killed the tomb itself); " +
 	"(ERRCHK) no error of Session/Backend/Conn/send calls is dropped; (ESCAPE) every blocking channel operation in broker offers a dying/closed/timeout escape; (TOKENTIMEOUT) blocking token takes have both escapes; (DIECLOSE) die/Close/DISCONNECT close the connection and kill the tomb on every path; (PANIC) explicit panics reachable from client-driven goroutines are discharged by constant arguments; " +
-	"(ADMIT) the decoder admits no application message the encoder refuses (an empty topic accepted from one client kills every subscriber it is forwarded to); (SETUPSTATE/TERMONCE) Terminate exactly once for every Setup, closed signal after cleanup; (SWITCH) out-of-protocol packets die. Hostile byte streams in general, timing and liveness of witnesses are not decided."
+	"(BOUNDS/CONSUMED/TERMINATES, LIN engine) for every byte string no index/slice/make on the decode side can be out of range, decoders never report more than supplied and their loops terminate; (ADMIT) the decoder admits no application message the encoder refuses (an empty topic accepted from one client kills every subscriber it is forwarded to); (SETUPSTATE/TERMONCE) Terminate exactly once for every Setup, closed signal after cleanup; (SWITCH) out-of-protocol packets die. Hostile byte streams in general, timing and liveness of witnesses are not decided."
 
 func propC14(c *Ctx) string {
 	v := c.vocab()
@@ -35,11 +35,13 @@ func propC14(c *Ctx) string {
 	c14DieClose(c, v)
 	c14Panic(c, v)
 	c02Admit(c, "C14/ADMIT")
+	// a malformed or truncated packet must not be able to panic the decoder (and with it the broker process)
+	c02Bounds(c, "C14")
 	c12SetupState(c, v, "C14")
 	c12Once(c, v, "C14")
 	c20Switch(c, v, "C14")
-	c.NotDecide("behaviour under arbitrary hostile byte streams and timing (decoder totality: see C02)", "that witness clients keep receiving (liveness)", "goroutine leaks in general (only blocking channel operations are inventoried)",
-		"panics inside dependencies (tomb, mercury, websocket) and runtime panics (index/nil) outside the explicit ones")
+	c.NotDecide("behaviour under arbitrary timing", "that witness clients keep receiving (liveness)", "goroutine leaks in general (only blocking channel operations are inventoried)",
+		"panics inside dependencies (tomb, mercury, websocket) and nil dereferences; index/slice panics outside the decode side of package packet (BOUNDS covers Decode methods, DetectPacket, Decoder.Read and their helpers)")
 	c.Assume("tomb.v2 semantics", "transport.Conn.Close unblocks a pending Receive (C19)")
 	return c14Explanation
 }
